@@ -610,3 +610,22 @@ pub fn cleanse_thread_local() {
         LogWriter::shutdown(&w);
     }
 }
+
+/// The same through a long-lived throw-away writer of this thread: cheap enough to run before
+/// every case, so that a case never starts with a line that an earlier case left in the
+/// thread-local format buffer (which would make its verdict irreproducible in a fresh process).
+pub fn cleanse_thread_local_fast() {
+    thread_local! {
+        static CLEANSER: std::cell::OnceCell<Option<FileLogWriter>> = const { std::cell::OnceCell::new() };
+    }
+    CLEANSER.with(|c| {
+        let w = c.get_or_init(|| {
+            let dir = crate::util::scratch_base().join(format!("cleanser-{:?}", std::thread::current().id()).replace(['(', ')'], "_"));
+            FileLogWriter::builder(FileSpec::default().directory(dir).basename("c").suppress_timestamp()).format(raw_format).try_build().ok()
+        });
+        if let Some(w) = w {
+            let mut now = DeferredNow::new();
+            let _ = LogWriter::write(w, &mut now, &log::Record::builder().args(format_args!("x")).level(log::Level::Error).build());
+        }
+    });
+}
